@@ -498,11 +498,14 @@ theorem createDisclosureProof_isOk (pk : PublicKey) (sig : CLSignature)
   · exact ⟨_, rfl⟩
   · exact ⟨fun v hv => by have := hU v hv; omega, fun v hv => by have := hD v hv; omega⟩
 
-/-- an honest disclosure proof is well-formed for the key. -/
+/-- an honest disclosure proof is well-formed for the key, provided no disclosed attribute is
+    negative and longer than `Lm` bits (`wellFormed` refuses such a disclosed value; without
+    `hneg` the statement is false, e.g. for `attrs = [0, -(2^300)]`, `D = [1]`, `Lm = 256`). -/
 theorem honest_wellFormed (pk : PublicKey) (sig : CLSignature)
     (attrs D : List Int) (rnd : DisclosureRandomness) (ctx nonce : Int) (issig : Bool)
     (hlen : attrs.length ≤ pk.r.length) (hpos : 0 < attrs.length)
-    (hD : ∀ v ∈ D, 1 ≤ v) {p : ProofD}
+    (hD : ∀ v ∈ D, 1 ≤ v)
+    (hneg : ∀ v ∈ D, ∀ a, attrs[v.toNat]? = some a → ¬ (a < 0 ∧ bitLen a > pk.params.Lm)) {p : ProofD}
     (h : createDisclosureProof pk sig attrs D rnd ctx nonce issig = .ok p) :
     p.wellFormed pk = true ∧ p.nonrev = none ∧ p.rangeProofs = none := by
   obtain ⟨commit, hDr, _, hp⟩ := createDisclosureProof_ok h
@@ -514,7 +517,7 @@ theorem honest_wellFormed (pk : PublicKey) (sig : CLSignature)
   have hmemU := mem_complementList D attrs.length
   refine ⟨?_, by rw [← hp'], by rw [← hp']⟩
   rw [ProofD.wellFormed_iff, ← hp']
-  refine ⟨⟨rfl, rfl, rfl, rfl⟩, ?_, ?_, ?_, ?_⟩
+  refine ⟨⟨rfl, rfl, rfl, rfl⟩, ?_, ?_, ?_, ?_, ?_⟩
   · simp only [IntMap.get]
     rw [lookup_map_self, if_pos]
     · rfl
@@ -534,6 +537,12 @@ theorem honest_wellFormed (pk : PublicKey) (sig : CLSignature)
     · rw [hmemU]; exact fun hh => hh.2.2 hv
   · intro kv hkv
     simp at hkv
+  · intro kv hkv a ha
+    obtain ⟨v, hv, rfl⟩ := List.mem_map.mp hkv
+    have hlt : v.toNat < attrs.length := by have := hDr v hv; omega
+    refine hneg v hv a ?_
+    simp only [Option.some.injEq] at ha
+    rw [← ha, List.getD_eq_getElem?_getD, List.getElem?_eq_getElem hlt, Option.getD_some]
 
 /-- **completeness of the disclosure proof (model level)**: the honest prover's proof exists
     and `ProofD.Verify` accepts it, for every oracle and every pair of picks. -/
@@ -556,7 +565,8 @@ theorem honest_accepts_model (isPrime : Nat → Bool) (o : SigOracle) (kid : Str
   obtain ⟨z, _, hz', hpa, hpc⟩ := honest_reconstructs_model isPrime pk sig attrs D rnd ctx nonce issig
     hN hn hz hs hr hlen hkp hsig hnd hp
   obtain ⟨hw, hnr, hrp⟩ := honest_wellFormed pk sig attrs D rnd ctx nonce issig hlen hpos
-    (fun v hv => (hD v hv).1) hp
+    (fun v hv => (hD v hv).1)
+    (fun v _ a ha hh => absurd (hattrs a (List.mem_of_getElem? ha)) (by omega)) hp
   obtain ⟨commit, _, _, hcp⟩ := createDisclosureProof_ok hp
   have hsz := createProof_sizes_ok hP hrnd (Int.natCast_nonneg _)
     (by rw [hP.Lh_eq]; exact_mod_cast createChallenge_lt_256 _ _ _ _) hattrs
